@@ -511,7 +511,7 @@ def stoch_obj(draw, left_sym, right_sym, avoid=frozenset(), chem="any", arche=No
     sto = Stoch(left, right, rep, ends, d, ws)
     use_lists = lists if lists is not None else draw(st.integers(0, 3)) == 0
     if use_lists:
-        _add_lists(draw, sto, left_sym)
+        _add_lists(draw, sto, left_sym if arche != "mixed_order" else "", to_end=(right_sym == "" and draw(st.integers(0, 2)) == 0))
     elif left_sym and draw(st.integers(0, 3)) == 0:
         sto.left = BD(left_sym, did, draw(weights(allow_zero=False)), 1, draw(st.sampled_from(WSTYLES)))
     _reprint(sto)
@@ -523,15 +523,15 @@ def _mass(tok):
     return refchem.heavy_mass(tok)
 
 
-def _add_lists(draw, sto, left_sym):
+def _add_lists(draw, sto, left_sym, to_end=False):
     """give some descriptors transition lists (only onto compatible descriptors; end groups mostly zero)."""
     allb = sto.bds
     nrep = len(sto.repeat_bds)
 
-    def mklist(d):
+    def mklist(d, end_ok=True):
         lst = []
         for i, b in enumerate(allb):
-            if d.compatible(b) and (i < nrep):
+            if d.compatible(b) and (i < nrep or (to_end and end_ok and draw(st.integers(0, 2)) == 0)):
                 lst.append(float(draw(st.integers(0, 7))))
             else:
                 lst.append(0.0)
@@ -550,7 +550,7 @@ def _add_lists(draw, sto, left_sym):
                     b.weight = lst
     if left_sym and draw(st.booleans()):
         d = BD(left_sym, sto.left.id, None, 1)
-        lst = mklist(d)
+        lst = mklist(d, end_ok=False)  # the entering bond must reach a repeat unit (C06: at least one repeat unit per object)
         if lst is not None:
             sto.left = BD(left_sym, sto.left.id, lst, 1)
 
